@@ -318,20 +318,20 @@ class Builder:
                 if not refs:
                     continue
                 uses += len(refs)
-                if self._thin_wrapper_of(f2) is fn and len(refs) == 1:
+                if self._thin_wrapper_of(f2, tail_only=True) is fn and len(refs) == 1:
                     thin += 1
             if uses and uses == thin:
                 out.add(key)
         self._templates = out
         return out
 
-    def _thin_wrapper_of(self, fn):
-        """the callee when the whole body of `fn` is `callee(input, extra..)`, else None"""
+    def _thin_wrapper_of(self, fn, tail_only=False):
+        """the callee when the whole body of `fn` (tail_only: its last statement) is `callee(input, extra..)`, else None"""
         inp = self._input_name(fn)
         real = [s_ for s_ in fn.body["stmts"] if s_["k"] != "item"]
-        if inp is None or len(real) != 1 or real[0]["k"] != "expr" or real[0].get("semi"):
+        if inp is None or not real or (len(real) != 1 and not tail_only) or real[-1]["k"] != "expr" or real[-1].get("semi"):
             return None
-        e = real[0]["e"]
+        e = real[-1]["e"]
         if not (e["k"] == "call" and e["f"].get("k") == "path" and len(e["args"]) >= 2):
             return None
         a0 = strip_refs(e["args"][0])
@@ -362,8 +362,12 @@ class Builder:
                 self.stack.pop()
             ir["instance_of"] = callee.key
             return ir
+        return self._fn_body_plain(fn, tsubst)
+
+    def _fn_body_plain(self, fn, tsubst, inherited=None):
         inp = self._input_name(fn)
         env = {"__fn": fn, "__input": inp, "__tsubst": tsubst, "__module": fn.module}
+        env.update(inherited or {})
         # extra parameters (e.g. `default: impl Fn(u64) -> TimeSpec`) are symbolic values
         for name, ty in fn.params:
             if name and name != inp:
@@ -399,6 +403,25 @@ class Builder:
                 e = st["e"]
                 if last and not st["semi"]:
                     inv = self._invocation(e, env, allow_try=False)
+                    if inv is not None and inv.get("t") == "ref" and inv.get("extra") and fn.impl is None and i > 0 and self._thin_wrapper_of(fn, tail_only=True) is not None and ("inst", fn.key) not in self.stack:
+                        # the function ends in a call of a parser template: its body, with the arguments in place of the
+                        # parameters, continues this one
+                        from .normalise import _subst
+
+                        callee = self._thin_wrapper_of(fn, tail_only=True)
+                        sub = {n_: a_ for (n_, _), a_ in list(zip(callee.params, e["args"]))[1:]}
+                        node = dict(callee.node, body=_subst(callee.body, sub), inputs=[callee.node["inputs"][0]], name=fn.name)
+                        inst = F.Fn(fn.key, node, callee.file, callee.module, None, False)
+                        self.stack.append(("inst", fn.key))
+                        try:
+                            ib = self._fn_body_plain(inst, tsubst, dict((k_, v_) for k_, v_ in env.items() if not k_.startswith("__")))
+                        finally:
+                            self.stack.pop()
+                        steps += ib["steps"]
+                        lets += ib["lets"]
+                        unknown += ib["unknown"]
+                        tail, ret = ib["tail"], ib["ret"]
+                        continue
                     if inv is not None:
                         if inv.get("t") == "ref" and e["k"] == "call":
                             self._infer_targs(inv, fn, tsubst)
